@@ -917,3 +917,52 @@ def expected_outcome(case: dict) -> str:
             else:
                 res = "any"  # same count; whether the cell sizes agree depends on lengths
     return res
+
+
+# ----------------------------------------------------------------------------------------- shrinking
+def shrink_candidates(case: dict) -> List[dict]:
+    """Smaller variants of a case: one block less, one chop less, no arcs, no jitter, unit scale, identity numbering."""
+    import copy
+
+    out = []
+    asm = case["asm"]
+    n = len(asm["blocks"])
+    if n > 1:
+        for b in range(n):
+            c = copy.deepcopy(case)
+            del c["asm"]["blocks"][b]
+            chops = []
+            for ch in c["chops"]:
+                if ch["block"] == b:
+                    continue
+                ch = dict(ch)
+                if ch["block"] > b:
+                    ch["block"] -= 1
+                chops.append(ch)
+            c["chops"] = chops
+            out.append(c)
+    for i in range(len(case["chops"])):
+        c = copy.deepcopy(case)
+        del c["chops"][i]
+        out.append(c)
+    if asm.get("arcs"):
+        c = copy.deepcopy(case)
+        c["asm"]["arcs"] = []
+        out.append(c)
+    if any(any(v) for v in asm["jitter"].values()):
+        c = copy.deepcopy(case)
+        c["asm"]["jitter"] = {k: [0.0, 0.0, 0.0] for k in asm["jitter"]}
+        out.append(c)
+    if asm["scale"] != [1.0, 1.0, 1.0]:
+        c = copy.deepcopy(case)
+        c["asm"]["scale"] = [1.0, 1.0, 1.0]
+        out.append(c)
+    ident = ROTS.index(tuple(range(8)))
+    for b, blk in enumerate(asm["blocks"]):
+        if blk["rot"] != ident and not any(ch["block"] == b for ch in case["chops"]):
+            c = copy.deepcopy(case)
+            c["asm"]["blocks"][b]["rot"] = ident
+            out.append(c)
+    for c in out:
+        c.pop("origin", None)
+    return out
